@@ -244,6 +244,7 @@ async fn one(ctx: &mut Ctx, case: u64, rng: &mut Rng, nodes: &[SNode]) -> bool {
     let mut written: Vec<(usize, E)> = vec![]; // accepted local writes
     let mut contents: BTreeMap<[u8; 32], usize> = BTreeMap::new(); // content hash -> node that wrote it
     let mut left_once = false;
+    let mut ever_left = vec![false; n];
 
     async fn join(nodes: &[SNode], members: &mut [Option<Member>], who: usize, via: usize, rng: &mut Rng, trace: &mut Vec<String>) -> anyhow::Result<()> {
         let ticket: DocTicket = members[via].as_ref().unwrap().doc.share(ShareMode::Write, AddrInfoOptions::RelayAndAddresses).await?;
@@ -326,6 +327,7 @@ async fn one(ctx: &mut Ctx, case: u64, rng: &mut Rng, nodes: &[SNode]) -> bool {
                 }
                 m.syncing = false;
                 left_once = true;
+                ever_left[i] = true;
                 trace.push(format!("node{i} leaves"));
             }
         } else if roll < 88 {
@@ -625,6 +627,13 @@ async fn one(ctx: &mut Ctx, case: u64, rng: &mut Rng, nodes: &[SNode]) -> bool {
     for i in 0..n {
         for j in 0..n {
             if i == j {
+                continue;
+            }
+            // A node that leaves forgets its session slots, and the end of a session from before is
+            // then not reported by it at all: the reports of such a pair cannot be matched one to one
+            // by counting (a false alarm of the first version, seen once in a thorough sweep).
+            if ever_left[i] || ever_left[j] {
+                ctx.count("directed_pairs_not_matched_one_to_one", 1);
                 continue;
             }
             let at_i: Vec<_> = sync_events_since(&members[i].as_ref().unwrap().events, 0, &ids[j]).into_iter().filter(|x| x.3).collect();
